@@ -101,6 +101,38 @@ func (d *Def) IsGeographic() bool { return d.Proj == "longlat" }
 // meridian) inside the usable region.
 func (d *Def) Pos(r *R) (lon, lat float64) {
 	lon = d.Lon0 + r.Range(-d.DLon, d.DLon)
+	lat = r.Range(d.LatMin, d.LatMax)
+	if r.Chance(0.15) {
+		// boundary positions: on the central meridian, at the edge of the usable region,
+		// on the equator / the limiting parallels
+		switch r.Intn(4) {
+		case 0:
+			lon = d.Lon0
+		case 1:
+			lon = d.Lon0 + d.DLon*float64(1-2*r.Intn(2))
+		case 2:
+			lat = []float64{d.LatMin, d.LatMax}[r.Intn(2)]
+		case 3:
+			if d.LatMin <= 0 && d.LatMax >= 0 {
+				lat = 0
+			}
+		}
+	}
+	return wrapLon(lon), lat
+}
+
+func wrapLon(lon float64) float64 {
+	for lon > 180 {
+		lon -= 360
+	}
+	for lon < -180 {
+		lon += 360
+	}
+	return lon
+}
+
+func (d *Def) posOld(r *R) (lon, lat float64) {
+	lon = d.Lon0 + r.Range(-d.DLon, d.DLon)
 	for lon > 180 {
 		lon -= 360
 	}
@@ -273,11 +305,15 @@ func Gen(r *R, o *Options) *Def {
 	d := &Def{}
 	form := pick(r, projs)
 	lon0 := r.Range(-180, 180)
+	boundary := r.Chance(0.15) // exact special parameter values
+	if boundary {
+		lon0 = []float64{0, 180, -180, 90, -90, 179.5}[r.Intn(6)]
+	}
 	if o.Area != nil {
 		lon0 = r.Range(o.Area.West, o.Area.East)
 	}
 	x0, y0 := r.Range(-3e6, 3e6), r.Range(-3e6, 3e6)
-	if r.Chance(0.2) {
+	if r.Chance(0.2) || boundary {
 		x0, y0 = 0, 0
 	}
 	fo := " +x_0=" + F(x0) + " +y_0=" + F(y0)
@@ -288,11 +324,19 @@ func Gen(r *R, o *Options) *Def {
 		d.Lon0, d.DLon, d.LatMin, d.LatMax = 0, 180, -85, 85
 	case "merc":
 		d.Proj = "merc"
-		d.Params = " +lon_0=" + F(lon0) + " +lat_ts=" + F(r.Range(-60, 60)) + fo
+		ts := r.Range(-60, 60)
+		if boundary {
+			ts = []float64{0, 60, -60}[r.Intn(3)]
+		}
+		d.Params = " +lon_0=" + F(lon0) + " +lat_ts=" + F(ts) + fo
 		d.DLon, d.LatMin, d.LatMax = 170, -85, 85
 	case "merc_k":
 		d.Proj = "merc"
-		d.Params = " +lon_0=" + F(lon0) + " +k_0=" + F(r.Range(0.5, 1.5)) + fo
+		k := r.Range(0.5, 1.5)
+		if boundary {
+			k = 1
+		}
+		d.Params = " +lon_0=" + F(lon0) + " +k_0=" + F(k) + fo
 		d.DLon, d.LatMin, d.LatMax = 170, -85, 85
 	case "lcc", "aea", "eqdc", "lcc_1sp":
 		d.Proj = form
@@ -302,6 +346,9 @@ func Gen(r *R, o *Options) *Def {
 			l2 = l1 + 2
 		}
 		l0 := r.Range(0, 80)
+		if boundary {
+			l0 = []float64{0, l1, l2, 80}[r.Intn(4)]
+		}
 		if form == "lcc_1sp" {
 			d.Proj = "lcc"
 			l2 = l1
@@ -326,11 +373,18 @@ func Gen(r *R, o *Options) *Def {
 		}
 	case "tmerc":
 		d.Proj = "tmerc"
-		d.Params = " +lat_0=" + F(r.Range(-80, 80)) + " +lon_0=" + F(lon0) + " +k_0=" + F(r.Range(0.9, 1.1)) + fo
+		tl0, tk := r.Range(-80, 80), r.Range(0.9, 1.1)
+		if boundary {
+			tl0, tk = []float64{0, 80, -80}[r.Intn(3)], []float64{1, 0.9996}[r.Intn(2)]
+		}
+		d.Params = " +lat_0=" + F(tl0) + " +lon_0=" + F(lon0) + " +k_0=" + F(tk) + fo
 		d.DLon, d.LatMin, d.LatMax = 3.5, -84, 84
 	case "utm":
 		d.Proj = "utm"
 		zone := r.IntRange(1, 60)
+		if boundary {
+			zone = []int{1, 60, 30, 31}[r.Intn(4)]
+		}
 		if o.Area != nil {
 			zone = int(math.Floor((lon0+180)/6)) + 1
 			if zone < 1 {
